@@ -161,13 +161,15 @@ def transforms2(tier):
            Rot(SQ, 0.5), Rot(SQ, aff(0, t=1)), Rot(SLP, 2.3, around=[0.5, 0.5]),
            Tr(Cut(SQ, IN_C, contained=True), [aff(0, t=1), aff(0, t=2)]), Rot(Cut(SQ, G_C), aff(0, t=1)),
            Tr(C_GROW, [1.0, 1.0]), Rot(TR, math.pi / 2), Tr(SQ_MOVE, [0, aff(0, t=1)]),
-           Rot(U(SQ, G_C), 0.5), Rot(C2, aff(0.3, t=1.2), around=[1, 0])]
+           Rot(U(SQ, G_C), 0.5), Rot(C2, aff(0.3, t=1.2), around=[1, 0]),
+           # parameter-dependent rigid motions as OPERANDS (the enclosing box must cover every parameter row)
+           U(Tr(SQ, [aff(0, t=3), 0]), G_C), N(Rot(SLP, aff(0, t=1), around=[0.5, 0.5]), C1)]
     if tier == "thorough":
         for ang in ANGLES:
             out += [Rot(SQ, ang), Rot(TSL, ang, around=[0.3, 0.1]), Rot(LSH, ang)]
         out += [Tr(Rot(SQ, 0.5), [1, 1]), Rot(Tr(SQ, [1, 1]), 0.5), Rot(Rot(SQ, 0.5), aff(0, t=1)),
                 Tr(N(SQ, G_C), [aff(0, t=-1), 0.3]), Rot(N(C1, SQ), aff(0.2, t=1)), Tr(LSH, [aff(0, t=1), 0]),
-                Cut(Rot(SQ, 0.5), G_C), U(Tr(SQ, [aff(0, t=1), 0]), G_C), N(Rot(SLP, aff(0, t=1), around=[0.5, 0.5]), C1),
+                Cut(Rot(SQ, 0.5), G_C), U(Tr(SQ, [aff(0, t=1), 0]), G_C), X(Tr(I01, [aff(0, t=2)]), I(0, 1, var="y")),
                 Rot(SQ_GROW, aff(0, t=1)), Tr(C_ST, [0.5, 0]), Rot(SQ, aff(0, s=1, t=1)),
                 Rot(SQ, aff(0, t=1), around=[aff(0.5, t=0.5), 0.5])]
     return out
